@@ -25,7 +25,7 @@ static long n_eval, n_scripts, n_nontrivial, n_K, n_Z, n_D, n_dup, n_chain, n_va
 static h_set distinct_obs;
 
 /* ---- answer pools ---- */
-static struct srv_answer pool[512]; static int npool; static char poolbytes[32768]; static size_t poolbytes_len;
+static struct srv_answer pool[512]; static int npool; static char poolbytes[1 << 20]; static size_t poolbytes_len;
 static struct srv_answer *mk(const char *bytes, int then, int klass, int code, const char *name)
 {
   struct srv_answer *a = &pool[npool++];
@@ -36,9 +36,10 @@ static struct srv_answer *mk(const char *bytes, int then, int klass, int code, c
   return a;
 }
 struct phasepool { struct srv_answer *a[64]; int n; };
+static int huge_ok;   /* the 5400-byte reply form is left out of the runs that repeat every script at every split point */
 static void add_code(struct phasepool *pp, int code, int formlevel)
 {
-  char b[256], nm[64]; int f, nforms = formlevel == 0 ? 1 : (formlevel == 1 ? 2 : 5);
+  char b[8192], nm[64]; int f, i, nforms = formlevel == 0 ? 1 : (formlevel == 1 ? 2 : (huge_ok ? 6 : 5)); size_t o;
   for (f = 0; f < nforms; f++) {
     switch (f) {
       case 0: snprintf(b, sizeof b, "%d text\r\n", code); break;
@@ -46,6 +47,8 @@ static void add_code(struct phasepool *pp, int code, int formlevel)
       case 2: snprintf(b, sizeof b, "%d-\r\n%d-a-b\r\n%d\r\n", code, code, code); break;
       case 3: snprintf(b, sizeof b, "%d lf only\n", code); break;
       case 4: snprintf(b, sizeof b, "%d-one\r\n%d-two 550 K\r\n%d three\r\n", code, code, code); break;
+      /* one reply of 73 lines / 5400 bytes: longer than the 5000 bytes of it that qmail-remote keeps for its report; the reply still ends where it ends */
+      case 5: o = 0; for (i = 0; i < 72; i++) o += snprintf(b + o, sizeof b - o, "%d-%02d this is one of many continuation lines of a very chatty server..........\r\n", code, i); snprintf(b + o, sizeof b - o, "%d end of it\r\n", code); break;
     }
     snprintf(nm, sizeof nm, "%d/f%d", code, f);
     pp->a[pp->n++] = mk(b, SRV_CONTINUE, code / 100, code, nm);
@@ -259,7 +262,7 @@ int main(int argc, char **argv)
   if (argc < 3) return 2;
   if (!strcmp(argv[1], "smtp")) {
     int fl = atoi(argv[3]), variants = atoi(argv[4]);
-    nrecips = atoi(argv[2]);
+    nrecips = atoi(argv[2]); huge_ok = !variants;
     if (argc > 6) { shard = atoi(argv[5]); nshards = atoi(argv[6]); }
     if (!stralloc_copys(&helohost, "me.example")) return 2;
     if (!stralloc_copys(&sender, "s@x")) return 2;
